@@ -14,7 +14,7 @@ import numpy as np
 from harness.common import enc, Z, to_zs, is_err, err_code, kids, tag
 
 PROP = 'C15'
-GENERATORS = []
+GENERATORS = ['gen_coordcomp']
 TRUSTED = [
     'hand model coq/C15/Model.v of AffineCoordinates/IdentityCoordinates, dependent_axes, pixel2world_single_axis, world2pixel_single_axis, '
     'CoordinateComponent._calculate and CoordinateComponentLink.using (as repaired by the fix: commits of wt-C15); tied by correspondence only',
@@ -1021,6 +1021,531 @@ def stream_malformed(R):
     R.stream('malformed', cases=k, bound='integer view entries out of range: IndexError expected from implementation, numpy oracle and model')
 
 
+# ------------------------------------------------------------------ histories of one dataset (round 4)
+# A case is {'stream', 'coords': spec | None, 'shape', 'ops': [...]}.  Operations (all public API of Data):
+#   ['read', view]                          every world attribute (no view: data[cid]; else data[cid, view]), every automatic link, every pixel attribute
+#   ['uvfd', coords, shape, with_y]         data.update_values_from_data(Data(x=..., [y=...], coords=obj)) ; coords = 'same' (the dataset's current
+#                                           object) | 'copy' (a new object with the same matrix) | 'none' | ['new', spec]
+#   ['set_coords', coords]                  data.coords = obj   (same choices)
+#   ['update_components'] ['add_component'] ['remove_component'] ['update_id', 'world'|'pixel'|'main', i]
+#   ['sibling_read', shape, view]           the same reads on a NEW dataset of another shape that shares the coordinate object (state kept per
+#                                           coordinate object instead of per dataset would show here, and in the next read of the first one)
+#   ['donor_change', shape]                 the dataset last passed to update_values_from_data gets another shape afterwards
+# Oracle (the property): after ANY history every read equals the transformation of the CURRENT coordinate object applied to the pixel grid of
+# the CURRENT shape (then the view applied by numpy), and there are ndim world attributes and 2 ndim links (none without coordinates).
+HIST_FINDINGS = ('uvfd-ndim-change', 'uvfd-after-coordinate-rename', 'uvfd-gains-coords', 'uvfd-donor-alias')
+
+
+def hist_coords_choice(ch, spec, obj, cid, fresh):
+    """-> (spec, object, object id) after choosing `ch` when the current ones are (spec, obj, cid)"""
+    if ch == 'same':
+        return spec, obj, cid
+    if ch == 'none':
+        return None, None, 0
+    if ch == 'copy':
+        return (spec, mk_coords(spec), fresh) if spec is not None else (None, None, 0)
+    nspec = spec_from_json(ch[1])
+    return nspec, mk_coords(nspec), fresh
+
+
+def ce_or_none(spec):
+    return coords_enc(spec) if spec is not None else (0, [0])
+
+
+def run_history(case):
+    """execute the history on the implementation.  Returns (reads, model_line) ; reads = list of dicts with the implementation's
+    observations, the expected ones (the property), the index of the read in the model's output (or None once a known-finding class
+    was entered: `taint`)"""
+    from glue.core import Data
+    from glue.core.component_id import ComponentID, PixelComponentID
+    spec = spec_from_json(case['coords']) if case['coords'] else None
+    shape = tuple(case['shape'])
+    obj = mk_coords(spec) if spec is not None else None
+    cid, nid = (1, 1) if spec is not None else (0, 0)
+    d = Data(x=np.zeros(shape), coords=obj, label='d')
+    donor = None
+    reads, mops = [], []
+    taint = None
+    renamed_coordinate = False
+    nextra = 0
+    mreads = 0
+    for k, op in enumerate(case['ops']):
+        kind = op[0]
+        try:
+            if kind == 'read':
+                vj = op[1]
+                n = len(shape)
+                impl = {'nworld': len(d.world_component_ids), 'nlinks': len(d.coordinate_links), 'npixel': len(d.pixel_component_ids)}
+                exp = {'nworld': n if spec is not None else 0, 'nlinks': 2 * n if spec is not None else 0, 'npixel': n}
+                if spec is not None and impl['nworld'] == n and impl['nlinks'] == 2 * n:
+                    impl.update(observe(d, spec, shape, vj))
+                    exp.update(expected(spec, shape, vj, oracle_grids(spec, shape)))
+                view = view_py(vj)
+                idx = np.indices(shape).astype(float)
+                for a in range(min(n, impl['npixel'])):
+                    try:
+                        pc = d.pixel_component_ids[a]
+                        impl['pixel%d' % a] = np.asarray(d[pc] if vj[0] == 'none' else d[pc, view])
+                    except Exception as e:  # noqa
+                        impl['pixel%d' % a] = ('exc', exc_name(e))
+                    try:
+                        exp['pixel%d' % a] = idx[a] if view is None else idx[a][view]
+                    except IndexError:
+                        exp['pixel%d' % a] = ('exc', 'IndexError')
+                rd = {'op': k, 'spec': spec, 'shape': shape, 'view': vj, 'impl': impl, 'exp': exp, 'taint': taint, 'mindex': None}
+                if taint is None:
+                    rd['mindex'] = mreads
+                    mreads += 1
+                    if vj[0] == 'fancy':
+                        arrs = [x[1] for x in vj[1]]
+                        mops.append((2, [(0, [vec_enc(a) for a in arrs[::-1]])]))
+                        rd['post'] = 'fancy'
+                    elif view_basic(vj):
+                        mops.append((1, [view_enc(vj, shape)]))
+                        rd['post'] = None
+                    else:
+                        mops.append((1, []))
+                        rd['post'] = None if vj[0] == 'none' else 'numpy-view'
+                reads.append(rd)
+                continue
+            if kind == 'sibling_read':
+                sshape, vj = tuple(op[1]), op[2]
+                sib = Data(x=np.zeros(sshape), coords=obj, label='sibling%d' % k)
+                n = len(sshape)
+                impl = {'nworld': len(sib.world_component_ids), 'nlinks': len(sib.coordinate_links), 'npixel': len(sib.pixel_component_ids)}
+                exp = {'nworld': n if spec is not None else 0, 'nlinks': 2 * n if spec is not None else 0, 'npixel': n}
+                if spec is not None and impl['nworld'] == n and impl['nlinks'] == 2 * n:
+                    impl.update(observe(sib, spec, sshape, vj))
+                    exp.update(expected(spec, sshape, vj, oracle_grids(spec, sshape)))
+                rd = {'op': k, 'spec': spec, 'shape': sshape, 'view': vj, 'impl': impl, 'exp': exp, 'taint': taint, 'mindex': None, 'post': None}
+                if taint is None:
+                    rd['mindex'] = mreads
+                    mreads += 1
+                    if view_basic(vj):
+                        mops.append((7, [Z(sshape), view_enc(vj, sshape)]))
+                    else:
+                        mops.append((7, [Z(sshape)]))
+                        rd['post'] = None if vj[0] == 'none' else 'numpy-view'
+                reads.append(rd)
+                continue
+            if kind == 'uvfd':
+                nid += 1
+                nspec, nobj, ncid = hist_coords_choice(op[1], spec, obj, cid, nid)
+                nshape = tuple(op[2])
+                kw = {'x': np.full(nshape, float(k + 1))}
+                if op[3]:
+                    kw['y'] = np.full(nshape, 2.0)
+                donor = Data(coords=nobj, label='donor%d' % k, **kw)
+                if taint is None:
+                    if len(nshape) != len(shape):
+                        taint = 'uvfd-ndim-change'
+                    elif renamed_coordinate:
+                        taint = 'uvfd-after-coordinate-rename'
+                    elif spec is None and nspec is not None:
+                        taint = 'uvfd-gains-coords'
+                shape, spec, obj, cid = nshape, nspec, nobj, ncid
+                mops.append((3, [cid, ce_or_none(spec), Z(shape)]))
+                d.update_values_from_data(donor)
+            elif kind == 'set_coords':
+                nid += 1
+                spec, obj, cid = hist_coords_choice(op[1], spec, obj, cid, nid)
+                mops.append((4, [cid, ce_or_none(spec)]))
+                d.coords = obj
+            else:
+                mops.append((5, []))
+                if kind == 'update_components':
+                    d.update_components({d.id['x']: np.full(shape, float(k + 10))})
+                elif kind == 'add_component':
+                    nextra += 1
+                    d.add_component(np.full(shape, 3.0), 'extra%d' % nextra)
+                elif kind == 'remove_component':
+                    ex = [c for c in d.main_components if c.label.startswith('extra') or c.label == 'y']
+                    if ex:
+                        d.remove_component(ex[-1])
+                elif kind == 'update_id':
+                    which, i = op[1], op[2]
+                    if which == 'world' and len(d.world_component_ids) > i:
+                        d.update_id(d.world_component_ids[i], ComponentID('renamed-w%d-%d' % (i, k)))
+                        renamed_coordinate = True
+                    elif which == 'pixel' and len(d.pixel_component_ids) > i:
+                        d.update_id(d.pixel_component_ids[i], PixelComponentID(i, 'renamed-p%d-%d' % (i, k)))
+                        renamed_coordinate = True
+                    elif which == 'main':
+                        d.update_id(d.id['x'], ComponentID('x'))
+                elif kind == 'donor_change':
+                    if donor is not None:
+                        taint = taint or 'uvfd-donor-alias'
+                        donor.update_values_from_data(Data(x=np.zeros(tuple(op[1])), coords=donor.coords, label='other'))
+                else:
+                    raise ValueError('unknown operation %r' % (op,))
+        except ValueError as e:
+            if 'unknown operation' in str(e):
+                raise
+            reads.append({'op': k, 'spec': spec, 'shape': shape, 'view': ['op', kind], 'impl': {'operation': ('exc', exc_name(e))},
+                          'exp': {'operation': 'completes'}, 'taint': taint, 'mindex': None})
+            break
+        except Exception as e:  # noqa
+            reads.append({'op': k, 'spec': spec, 'shape': shape, 'view': ['op', kind], 'impl': {'operation': ('exc', exc_name(e))},
+                          'exp': {'operation': 'completes'}, 'taint': taint, 'mindex': None})
+            break
+        if spec is not None and kind in ('set_coords',) and op[1] not in ('same', 'none') and spec_dim(spec) != len(shape):
+            raise ValueError('generator: coordinates of the wrong dimension')
+    spec0 = spec_from_json(case['coords']) if case['coords'] else None
+    line = enc((6, [(0, [1 if spec0 is not None else 0, ce_or_none(spec0), Z(list(case['shape']))]), (0, mops)]))
+    return reads, line
+
+
+def hist_same(name, g, e, tols):
+    if isinstance(e, (int, str)):
+        return g == e
+    if g is None:
+        return False
+    return same(g, e, tols.get(name, 0.0) if not name.startswith('pixel') else 0.0)
+
+
+def hist_failing(reads):
+    """[(read, name)] where the implementation differs from the property"""
+    out = []
+    for rd in reads:
+        tols = view_tols(rd['spec'], rd['shape']) if rd['spec'] is not None else {}
+        for name, e in rd['exp'].items():
+            if not hist_same(name, rd['impl'].get(name), e, tols):
+                out.append((rd, name))
+    return out
+
+
+def hist_model_compare(rd, tree):
+    """model observation of one read vs the implementation: list of (name, model, impl) that differ"""
+    ks = kids(tree)
+    nworld, nlinks = ks[0][0], ks[1][0]
+    out = []
+    impl = rd['impl']
+    if nworld != impl['nworld']:
+        out.append(('nworld', nworld, impl['nworld']))
+    if nlinks != impl['nlinks']:
+        out.append(('nlinks', nlinks, impl['nlinks']))
+    if out or rd['spec'] is None:
+        return out
+    tols = view_tols(rd['spec'], rd['shape'])
+    view = view_py(rd['view'])
+    groups = (('world', kids(ks[2])), ('link_p2w', kids(ks[3])), ('link_w2p', kids(ks[4])))
+    for nm, trees in groups:
+        for a, t in enumerate(trees):
+            name = '%s%d' % (nm, a)
+            if name not in impl:
+                continue
+            m = dec_vals(t)
+            if not isinstance(m, tuple):
+                if rd.get('post') == 'numpy-view':
+                    try:
+                        m = m[view]
+                    except IndexError:
+                        m = ('exc', 'IndexError')
+                elif rd.get('post') == 'fancy':
+                    m = m.reshape(np.shape(rd['view'][1][0][1]))
+            if not same(impl[name], m, tols.get(name, TOL)):
+                out.append((name, brief(m), brief(impl[name])))
+    return out
+
+
+def hist_key(case):
+    return (case['stream'], repr(case['coords']), tuple(case['shape']), repr(case['ops']))
+
+
+def hist_detail(rd, name):
+    g = rd['impl'].get(name)
+    e = rd['exp'][name]
+    return {'observed': name, 'after_operation_index': rd['op'], 'view': rd['view'], 'current_shape': list(rd['shape']),
+            'current_coords': spec_json(rd['spec']) if rd['spec'] is not None else None,
+            'impl': g if isinstance(g, (int, str)) or g is None else brief(g), 'expected': e if isinstance(e, (int, str)) else brief(e)}
+
+
+def hist_valid(case):
+    """is the history inside the generated domain (used by the shrinker): shapes / views / coordinates keep their dimension"""
+    n = len(case['shape'])
+    cur = list(case['shape'])
+    if not cur or any(s < 1 for s in cur):
+        return False
+    for op in case['ops']:
+        if op[0] in ('uvfd',):
+            if len(op[2]) != len(cur) and op[1] in ('same', 'copy'):
+                return False            # a coordinate object of another dimension than the data is not a valid input
+            cur = list(op[2])
+            if any(s < 1 for s in cur):
+                return False
+        if op[0] == 'sibling_read':
+            if len(op[1]) != len(cur) or any(s < 1 for s in op[1]):
+                return False
+        if op[0] in ('read', 'sibling_read') and op[-1][0] in ('tuple', 'bare', 'fancy'):
+            ents = op[-1][1]
+            vcur = cur
+            cur = list(op[1]) if op[0] == 'sibling_read' else cur
+            if len(ents) > len(cur):
+                return False
+            for x, s in zip(ents, cur):
+                if isinstance(x, int) and not -s <= x < s:
+                    return False
+                if not isinstance(x, int) and x[0] in ('l', 'a') and any(not 0 <= v < s for v in x[1]):
+                    return False
+            if op[-1][0] == 'fancy' and (len(ents) != len(cur) or op[0] == 'sibling_read'):
+                return False
+            cur = vcur
+    return True
+
+
+def shrink_history(case, pred):
+    """drop operations, simplify views, reduce shapes while pred(case) stays true"""
+    case = dict(case, ops=[list(o) for o in case['ops']])
+    improved = True
+    rounds = 0
+    while improved and rounds < 60:
+        improved = False
+        rounds += 1
+        ops = case['ops']
+        for i in range(len(ops)):
+            c2 = dict(case, ops=ops[:i] + ops[i + 1:])
+            if c2['ops'] and hist_valid(c2) and pred(c2):
+                case, improved = c2, True
+                break
+        if improved:
+            continue
+        for i, op in enumerate(ops):
+            if op[0] == 'read' and op[1] != ['none', []]:
+                c2 = dict(case, ops=ops[:i] + [['read', ['none', []]]] + ops[i + 1:])
+                if pred(c2):
+                    case, improved = c2, True
+                    break
+            if op[0] == 'sibling_read' and op[2] != ['none', []]:
+                c2 = dict(case, ops=ops[:i] + [[op[0], op[1], ['none', []]]] + ops[i + 1:])
+                if pred(c2):
+                    case, improved = c2, True
+                    break
+            if op[0] == 'uvfd' and op[3]:
+                c2 = dict(case, ops=ops[:i] + [[op[0], op[1], op[2], False]] + ops[i + 1:])
+                if pred(c2):
+                    case, improved = c2, True
+                    break
+        if improved:
+            continue
+        # shapes: the initial one and those of the updates, one axis at a time
+        holders = [('init', None)] + [('op', i) for i, op in enumerate(ops) if op[0] in ('uvfd', 'donor_change', 'sibling_read')]
+        for where, i in holders:
+            sh = case['shape'] if where == 'init' else (ops[i][2] if ops[i][0] == 'uvfd' else ops[i][1])
+            if where == 'op' and ops[i][0] == 'sibling_read' and ops[i][2] != ['none', []]:
+                continue
+            for ax in range(len(sh)):
+                if sh[ax] > 1:
+                    nsh = list(sh[:ax]) + [sh[ax] - 1] + list(sh[ax + 1:])
+                    if where == 'init':
+                        c2 = dict(case, shape=nsh)
+                    elif ops[i][0] == 'uvfd':
+                        c2 = dict(case, ops=ops[:i] + [[ops[i][0], ops[i][1], nsh, ops[i][3]]] + ops[i + 1:])
+                    else:
+                        c2 = dict(case, ops=ops[:i] + [[ops[i][0], nsh] + list(ops[i][2:])] + ops[i + 1:])
+                    if hist_valid(c2) and pred(c2):
+                        case, improved = c2, True
+                        break
+            if improved:
+                break
+    return case
+
+
+def hist_pred(name, taint):
+    def pred(c):
+        try:
+            reads, _ = run_history(c)
+        except Exception:  # noqa
+            return False
+        return any(nm == name and rd['taint'] == taint for rd, nm in hist_failing(reads))
+    return pred
+
+
+class HistBatch:
+    def __init__(self, R, stream):
+        self.R, self.stream = R, stream
+        self.lines, self.items = [], []
+        self.nreads = 0
+        self.shrunk = 0
+
+    def add(self, case):
+        R = self.R
+        reads, line = run_history(case)
+        self.nreads += len(reads)
+        fl = hist_failing(reads)
+        seen = set()
+        for rd, name in fl:
+            if (name, rd['taint']) in seen:
+                continue
+            seen.add((name, rd['taint']))
+            c2, det = case, hist_detail(rd, name)
+            if rd['taint'] is None and self.shrunk < 6:
+                self.shrunk += 1
+                c2 = shrink_history(case, hist_pred(name, None))
+                r2, _ = run_history(c2)
+                f2 = [(r, n) for r, n in hist_failing(r2) if n == name and r['taint'] is None]
+                if f2:
+                    det = dict(hist_detail(*f2[0]), shrunk=True)
+                else:
+                    c2 = case
+            oracle_fail(R, dict(c2, observed=name), det, key=rd['taint'])
+        kinds = [o[0] for o in case['ops']]
+        mutators = [o for o in case['ops'] if o[0] not in ('read', 'sibling_read')]
+        R.count(hist_key(case), nontrivial=len(mutators) > 0 and len(reads) > 1, stream=self.stream, ndim=len(case['shape']),
+                history_length=len(case['ops']), history_mutators=len(mutators),
+                history_class='/'.join(sorted(set(rd['taint'] for rd in reads if rd['taint']))) or 'strict')
+        for o in mutators:
+            self.R.hist['history_op'][o[0] if o[0] not in ('uvfd', 'set_coords') else '%s:%s' % (o[0], o[1] if isinstance(o[1], str) else 'new')] += 1
+        self.R.evaluations += sum(len(rd['exp']) for rd in reads) - 1
+        self.lines.append(line)
+        self.items.append((case, [rd for rd in reads if rd['mindex'] is not None]))
+        return fl
+
+    def finish(self):
+        R = self.R
+        outs = R.model(self.lines) if self.lines else []
+        for (case, reads), o in zip(self.items, outs):
+            if is_err(o):
+                corr_fail(R, case, {'model': 'error %s' % err_code(o)})
+                continue
+            res = kids(o)
+            if len(res) < len(reads):
+                corr_fail(R, case, {'model': 'returned %d read results, expected %d' % (len(res), len(reads))})
+                continue
+            for rd in reads:
+                diff = hist_model_compare(rd, res[rd['mindex']])
+                if diff:
+                    name, m, g = diff[0]
+                    corr_fail(R, dict(case, observed=name), {'after_operation_index': rd['op'], 'view': rd['view'], 'model': m, 'impl': g})
+                    break
+
+
+def hist_rand_spec(rng, n):
+    r = rng.random()
+    if r < 0.12:
+        return ('id', n)
+    if r < 0.25:
+        return ('aff',) + random_magnitudes(rng, n)
+    return ('aff', random_structured(rng, n), small_translation(rng, n))
+
+
+def hist_coords_op(rng, n, allow_none=True):
+    r = rng.random()
+    if r < 0.34:
+        return 'same'
+    if r < 0.48:
+        return 'copy'
+    if r < 0.56 and allow_none:
+        return 'none'
+    return ['new', spec_json(hist_rand_spec(rng, n))]
+
+
+def random_history(rng, stream):
+    n = rng.choice([1, 2, 2, 2, 3, 3])
+    spec = hist_rand_spec(rng, n) if rng.random() < 0.93 else None
+    shape = [rng.choice([1, 2, 3, 4]) for _ in range(n)]
+    ops = []
+    cur = list(shape)
+    probe = rng.random()            # a small share of the histories probes the classes with known findings (always after a strict prefix)
+
+    def read():
+        return ['read', random_view(rng, tuple(cur)) if rng.random() < 0.5 else ['none', []]]
+    for _ in range(rng.randrange(2, 9)):
+        r = rng.random()
+        if r < 0.38:
+            ops.append(read())
+        elif r < 0.44:
+            ssh = [rng.choice([1, 2, 3, 4, 5]) for _ in range(n)]
+            ops.append(['sibling_read', ssh, random_view(rng, tuple(ssh), allow_special=False) if rng.random() < 0.4 else ['none', []]])
+        elif r < 0.66:
+            if rng.random() < 0.75:
+                cur = [rng.choice([1, 2, 3, 4, 5]) for _ in range(n)]
+            ops.append(['uvfd', hist_coords_op(rng, n), list(cur), rng.random() < 0.3])
+        elif r < 0.80:
+            ops.append(['set_coords', hist_coords_op(rng, n)])
+        elif r < 0.85:
+            ops.append(['update_components'])
+        elif r < 0.90:
+            ops.append(['add_component'])
+        elif r < 0.94:
+            ops.append(['remove_component'])
+        elif r < 0.97:
+            ops.append(['update_id', 'main', 0])
+        elif probe < 0.5:
+            ops.append(['update_id', rng.choice(['world', 'pixel']), rng.randrange(n)])
+    if probe < 0.04:
+        m = rng.choice([k for k in (1, 2, 3) if k != n])
+        cur = [rng.choice([1, 2, 3]) for _ in range(m)]
+        ops.append(['uvfd', ['new', spec_json(hist_rand_spec(rng, m))] if rng.random() < 0.7 else 'none', list(cur), False])
+    elif probe < 0.08 and any(o[0] == 'uvfd' for o in ops):
+        ops.append(['donor_change', [rng.choice([1, 2, 3, 4, 5]) for _ in range(n)]])
+    ops.append(['read', ['none', []]])
+    ops.append(['read', random_view(rng, tuple(cur))])
+    return {'stream': stream, 'coords': spec_json(spec) if spec is not None else None, 'shape': shape, 'ops': ops}
+
+
+def stream_history(R):
+    """seeded histories: 1-3 dims, 2-8 operations + two final reads"""
+    hb = HistBatch(R, 'history')
+    N = R.pick(450, 1500)
+    for i in range(N):
+        rng = R.subrng('history', i)
+        case = random_history(rng, 'history')
+        hb.add(case)
+        if i < 2:
+            R.sample(case)
+    hb.finish()
+    R.stream('history', histories=N, reads=hb.nreads, exhaustive=False,
+             bound='seeded: 1-3 dims, sizes 1..5, 2-8 operations out of {read without / with a view, the same on a sibling dataset sharing the coordinate object, update_values_from_data (same / equal / new / no '
+                   'coordinate object; new or same shape), coords = (same / equal / new / None), update_components, add / remove component, update_id} '
+                   'and two final reads; 8 % of them end in a class with a known finding (ndim change, donor changed afterwards) or rename a '
+                   'coordinate attribute first; every read is compared with the current coordinate object applied to the current pixel grid and with the model')
+
+
+def small_history_alphabet():
+    A = ('aff', ((F(2), F(1)), (F(0), F(3))), (F(1), F(-2)))
+    B = ('aff', ((F(0), F(-1)), (F(2), F(1))), (F(5), F(0)))
+    return A, [['uvfd', 'same', [3, 2], False], ['uvfd', 'same', [2, 3], False], ['uvfd', 'copy', [1, 4], True], ['uvfd', ['new', spec_json(B)], [3, 3], False],
+               ['uvfd', 'none', [2, 2], False], ['set_coords', 'same'], ['set_coords', 'copy'], ['set_coords', ['new', spec_json(B)]], ['set_coords', 'none'],
+               ['update_components'], ['add_component'], ['update_id', 'main', 0], ['update_id', 'world', 1], ['sibling_read', [3, 1], ['none', []]]]
+
+
+def stream_history_small(R):
+    """small scope, exhaustive: every sequence of at most 2 operations out of 14 on a 2-d dataset, with a read without a view before / between /
+    after the operations in every combination (the final read always, followed by a read with a view); thorough adds 1200 sampled sequences of 3"""
+    hb = HistBatch(R, 'history_small')
+    A, alpha = small_history_alphabet()
+    rng = R.subrng('history_small')
+    L = R.pick(2, 3)
+    n = 0
+    for ln in range(1, L + 1):
+        seqs = list(itertools.product(range(len(alpha)), repeat=ln))
+        if ln == 3:
+            seqs = rng.sample(seqs, 1200)          # (thorough only) 1200 of the 14^3 sequences of length 3, one read placement each
+        for seq in seqs:
+            masks = list(itertools.product([0, 1], repeat=ln))
+            if ln == 3:
+                masks = [rng.choice(masks)]
+            for mask in masks:
+                ops = []
+                cur = [2, 3]
+                for j, m in zip(seq, mask):
+                    if m:
+                        ops.append(['read', ['none', []]])
+                    ops.append([list(x) if isinstance(x, list) else x for x in alpha[j]])
+                    if alpha[j][0] == 'uvfd':
+                        cur = alpha[j][2]
+                ops.append(['read', ['none', []]])
+                ops.append(['read', ['tuple', [['s', 1, None, None], rng.choice([0, -1, ['s', None, None, -1]])]] if cur[0] > 1
+                            else ['tuple', [0, ['s', None, None, 2]]]])
+                hb.add({'stream': 'history_small', 'coords': spec_json(A), 'shape': [2, 3], 'ops': ops})
+                n += 1
+    hb.finish()
+    R.stream('history_small', histories=n, reads=hb.nreads, exhaustive=True,
+             bound='every sequence of <= 2 operations (thorough: + 1200 sampled sequences of 3; here max %d) out of %d (update_values_from_data x 5 kinds of coordinate object / shape, coords = x 4, '
+                   'update_components, add_component, update_id x 2, the reads on a sibling dataset sharing the coordinate object) on a 2-d dataset, x every placement of view-less reads between them' % (L, len(alpha)))
+
+
+
 def run(R):
     R.rule = ('per dataset (coordinate object, shape) and view: every world attribute data[world, view], every automatically created pixel->world and '
               'world->pixel link evaluated under the view, compared with the matrix applied directly to the pixel grid (fractions) and with the Coq model; '
@@ -1033,6 +1558,8 @@ def run(R):
     stream_layout_links(R)
     stream_direct(R)
     stream_malformed(R)
+    stream_history_small(R)
+    stream_history(R)
     stream_dependent_axes(R)
     shrink_failures(R)
 
@@ -1142,6 +1669,16 @@ def replay(R, case):
         ok = (all(close(w[n - 1 - a], worlds[a], gt['world%d' % a]) for a in range(n)) and
               all(close(back[n - 1 - a], pix[a], gt['link_w2p%d' % a]) for a in range(n)))
         out.update(violates=not ok, impl=[brief(x) for x in w])
+    elif st in ('history', 'history_small'):
+        reads, line = run_history(case)
+        fl = hist_failing(reads)
+        out.update(violates=any(rd['taint'] is None for rd, _ in fl), failing=[[rd['op'], name, rd['taint']] for rd, name in fl],
+                   detail=[hist_detail(rd, name) for rd, name in fl[:4]])
+        if R is not None and R.model_available:
+            o = R.model([line])[0]
+            mr = [rd for rd in reads if rd['mindex'] is not None]
+            out['model_differs'] = [[rd['op']] + [str(x)[:200] for x in hist_model_compare(rd, kids(o)[rd['mindex']])[:1]] for rd in mr
+                                    if not is_err(o) and hist_model_compare(rd, kids(o)[rd['mindex']])]
     else:
         out['note'] = 'replay by re-running the stream: ./check C15 --tier quick'
         out['violates'] = False
